@@ -152,6 +152,9 @@ func convOutcome(a argVal, p string) string {
 		}
 		return "either"
 	case "num":
+		if p == "uint8" {
+			return "either" // unsigned kinds are not among the parameter kinds the statement lists
+		}
 		if a.Raw && p == "dec" {
 			return "either" // a plain Go int element handed to a *decimal.Big parameter: conversion not promised
 		}
@@ -518,7 +521,7 @@ func init() {
 }
 
 var c11Params = []string{"string", "bool", "int", "int8", "int16", "int32", "int64", "float32", "float64", "any", "dec", "time",
-	"[]int", "[]string", "[]any", "[]float64", "[]int64", "map[string]any", "map[string]string", "map[string]int"}
+	"[]int", "[]string", "[]any", "[]float64", "[]int64", "[]int32", "[]uint8", "map[string]any", "map[string]string", "map[string]int"}
 
 var c11Args = []argVal{
 	aNull, aTrue, {Text: "false", Kind: "bool"},
